@@ -2,13 +2,16 @@ mod app;
 mod build;
 mod dsl;
 mod hosts;
+mod props;
 mod refmodel;
 mod seqx;
 
 use hosts::HostKind;
+use mc_kit::{Reporter, Tier};
+use serde_json::json;
 
 fn dev(args: &[String]) {
-    let host = match args.get(0).map(String::as_str) {
+    let host = match args.first().map(String::as_str) {
         Some("stream") => HostKind::StreamPoll,
         Some("core") => HostKind::CoreCmd,
         Some("legacy") => HostKind::CoreLegacy,
@@ -21,18 +24,8 @@ fn dev(args: &[String]) {
     let aborts: u8 = args.get(3).and_then(|s| s.parse().ok()).unwrap_or(0);
     let g = if aborts > 0 { dsl::Grammar::with_abort() } else { dsl::Grammar::plain() };
     let progs = dsl::terms_up_to(n, &dsl::all_atoms(), g);
-    let progs: Vec<_> = progs
-        .into_iter()
-        .filter(|p| host != HostKind::CoreLegacy || app::legacy_ok(p))
-        .collect();
-    let bounds = seqx::Bounds {
-        depth,
-        items_per_stream: 2,
-        max_aborts: aborts,
-        max_silent: 1,
-        max_late: 1,
-        abort_before_start: true,
-    };
+    let progs: Vec<_> = progs.into_iter().filter(|p| host != HostKind::CoreLegacy || app::legacy_ok(p)).collect();
+    let bounds = seqx::Bounds { depth, items_per_stream: 2, max_aborts: aborts, max_silent: 1, max_late: 1, abort_before_start: true };
     eprintln!("{} programs", progs.len());
     let t0 = std::time::Instant::now();
     let results = mc_kit::par_map(&progs, |_, p| {
@@ -64,13 +57,60 @@ fn dev(args: &[String]) {
     );
 }
 
+fn seqx_property(id: &str, tier: Tier) -> i32 {
+    let rep = Reporter::new(id, tier);
+    let suites = props::suites(id, tier);
+    let (deadline, cap) = match tier {
+        Tier::Quick => (45.0, 400_000),
+        Tier::Thorough => (780.0, 5_000_000),
+    };
+    let out = props::run_suites(&rep, &suites, deadline, cap);
+    if out.stats.outcomes.len() < 2 || out.stats.programs < 2 {
+        mc_kit::machinery_error("vacuous exploration: fewer than 2 distinct outcomes");
+    }
+    let coverage = json!({
+        "states": out.stats.states,
+        "transitions": out.stats.transitions,
+        "traces_validated_against_impl": out.stats.histories,
+        "evaluations": out.stats.histories,
+        "distinct_nontrivial": out.stats.outcomes.len(),
+        "rule": "states = nodes of the history trees (program x shell history prefix), each re-executed from a fresh real object; transitions = tree edges (one shell step: resolve / re-resolve / drop / abort, observed or unobserved); every node's observation (effects, events, is_done, live tasks, resolve results, queue gauges) is compared with the set-valued reference. distinct_nontrivial = number of distinct (effects, events) observations seen after a step.",
+        "programs": out.stats.programs,
+        "real_steps_executed": out.stats.steps_executed,
+        "max_live_reference_alternatives": out.stats.max_alts,
+        "max_history_depth_reached": out.stats.max_depth,
+        "suites": out.per_suite,
+        "exhaustive": !out.stats.capped,
+        "caps": if out.stats.capped { "a per-program node cap or the wall-clock deadline cut some history trees; see per-suite 'capped'" } else { "none hit: every history tree was enumerated to exhaustion or to its depth bound" },
+        "samples": out.samples,
+    });
+    rep.finish(
+        "model_checking",
+        coverage,
+        &[
+            "programs are those expressible in the DSL up to the node bound; arbitrary user futures are represented by the async atoms only",
+            "the reference interpreter (refmodel.rs) is the specification of the property texts; it is set-valued where they leave room (lazy abort clean-up, look-alike binding, stream.then_request after a dropped inner request)",
+            "third-party primitives (crossbeam-channel, futures mpsc/AtomicWaker, slab) are trusted",
+        ],
+    )
+}
+
 fn main() {
     let args: Vec<String> = std::env::args().skip(1).collect();
-    match args.first().map(String::as_str) {
-        Some("dev") => dev(&args[1..]),
-        _ => {
-            eprintln!("engine not built yet");
-            std::process::exit(2);
-        }
+    let tier = Tier::from_args(&args);
+    if let Some(path) = mc_kit::arg_value(&args, "--replay") {
+        std::process::exit(props::replay(&path));
     }
+    let code = match args.first().map(String::as_str) {
+        Some("dev") => {
+            dev(&args[1..]);
+            0
+        }
+        Some(id @ ("C01" | "C02" | "C03" | "C04" | "C05" | "C06" | "C07")) => seqx_property(id, tier),
+        _ => {
+            eprintln!("usage: mc-core <C01..C08|C18> --tier quick|thorough [--replay path]");
+            2
+        }
+    };
+    std::process::exit(code);
 }
